@@ -188,6 +188,12 @@ func (g *gen) argTok() tok {
 		return g.write("with space " + r.Pick(words))
 	case 2:
 		g.feats["multiline-token"] = true
+		if r.Intn(3) == 0 {
+			// a backslash directly in front of a line break inside quotes (and
+			// backslashes elsewhere): kept verbatim, and the line still counts
+			g.feats["backslash-newline-in-quotes"] = true
+			return g.write("cont\\\nnext " + r.Pick(words) + " c:\\x\\\n\\y")
+		}
 		return g.write("line1\nline2 " + r.Pick(words) + "\n  line3")
 	case 3:
 		return g.write(`say "hi" ` + r.Pick(words))
